@@ -76,6 +76,26 @@ theorem zero_filled_exact (sc : Scalar S) (v : T S) (m : T Bool) (i : Nat) (hv :
     (zeroFilled sc v m).data[i]'(by simp [zeroFilled, T.zipWith]; omega) = sc.zero := by
   simp [zeroFilled, T.zipWith, h]
 
+/-- The interpreter only appends: after ANY program every earlier register — the inputs included — is still in the register file, at the same
+    index, with the same value tensor and mask. (What the real classes must match: no operation may change its operand or any earlier value;
+    the correspondence check dumps every register a second time after the whole program.) -/
+theorem run_append_only (sc : Scalar S) [Inhabited S] (fw : Framework) (prog : List (Instr S)) (env : List (MT S)) :
+    ∃ rs, (runMasked sc fw prog env).1 = env ++ rs ∧ rs.length ≤ prog.length := by
+  induction prog generalizing env with
+  | nil => exact ⟨[], by simp [runMasked]⟩
+  | cons ins rest ih =>
+    unfold runMasked
+    cases h : stepMasked sc fw env ins with
+    | none => exact ⟨[], by simp⟩
+    | some r =>
+      obtain ⟨rs, hrs, hl⟩ := ih (env ++ [r])
+      exact ⟨r :: rs, by simp [hrs], by simp; omega⟩
+
+theorem run_keeps_register (sc : Scalar S) [Inhabited S] (fw : Framework) (prog : List (Instr S)) (env : List (MT S)) (i : Nat) (hi : i < env.length) :
+    (runMasked sc fw prog env).1[i]? = env[i]? := by
+  obtain ⟨rs, h, _⟩ := run_append_only sc fw prog env
+  rw [h, List.getElem?_append_left hi]
+
 example : (stepMasked natScalar .torch [k1Input] (.matmul 0 k1Matrix)).map (fun r => (r.tensor.shape, r.mask.shape)) = some ([2, 5], [2, 3]) := by decide
 /-- with a square matrix the same call is aligned -/
 example : (stepMasked natScalar .torch [k1Input] (.matmul 0 ⟨[3, 3], List.replicate 9 1⟩)).map (fun r => (r.tensor.shape, r.mask.shape, r.tensor.data)) = some ([2, 3], [2, 3], [6, 6, 6, 15, 15, 15]) := by decide
